@@ -40,6 +40,8 @@ class C11Disk(Scenario):
             # crash-point granularity: library source line, or (a share of the runs) single byte-code instruction
             "instr": rng.chance(1, 4) if tier == "thorough" else rng.chance(1, 30),
             "steps": rng.between(4, self.max_steps),
+            # the path at which the filter is created may already hold an (older, longer) file
+            "stale_create": rng.chance(1, 3),
         }
 
     def gen_step(self, rng):
@@ -70,9 +72,13 @@ class C11Disk(Scenario):
             return {"op": "drop"}
         if r < 86:
             return {"op": "chdir", "dir": rng.choice(seams.Scratch.DIRS)}
-        if r < 93:
+        if r < 91:
             return {"op": "export", "dir": rng.choice(seams.Scratch.DIRS),
                     "style": rng.choice(("abs", "rel", "path", "relpath"))}
+        if r < 95:
+            # a second on-disk filter with the SAME file name in another directory, always spelled relative to its
+            # own directory: the two backing files must not influence each other
+            return {"op": "decoy", "dir": rng.choice(seams.Scratch.DIRS), "ks": [rng.below(cfg["universe"]) for _ in range(rng.between(0, 3))]}
         return {"op": "close_kill", "at": rng.between(1, 12)}
 
     # ------------------------------------------------------------------ world
@@ -97,6 +103,10 @@ class C11Disk(Scenario):
         self.m, self.k = common.geometry(cfg["est"], cfg["rate"])
         self.path = self.scr.abspath(cfg["dir"], FNAME)
         self.cls = BloomFilterOnDisk
+        if cfg.get("stale_create"):
+            with open(self.path, "wb") as fh:
+                fh.write(b"\x77" * ((self.m + 7) // 8 + 20 + 13))
+            self.ctx.fault("stale_backing_file")
         self.f = BloomFilterOnDisk(self.scr.spell(cfg["dir"], FNAME, cfg["style"]), cfg["est"], cfg["rate"],
                                    hash_function=self.hf)
         self.done = []  # key indices of completed additions (with repetitions)
@@ -107,6 +117,13 @@ class C11Disk(Scenario):
         self.check_after_return("create", None)
         if not cfg["fault_free"]:
             self.ctx.nontrivial = True
+
+    def read_backing(self):
+        try:
+            return common.read_fresh(self.path)
+        except FileNotFoundError:
+            raise Violation("backing_file_missing", f"the filter's backing file {os.path.relpath(self.path, self.scr.root)} "
+                                                    f"does not exist (cwd {self.scr.cwd!r})", {"phase": "any", "op": "any"})
 
     def new_twin(self, image=None):
         from probables import BloomFilter
@@ -207,7 +224,7 @@ class C11Disk(Scenario):
         last = [None]
 
         def hook(i, code, line):
-            img = common.read_fresh(path)
+            img = self.read_backing()
             loc = f"{os.path.basename(code.co_filename)}:{line}" if line >= 0 else f"{os.path.basename(code.co_filename)}:{code.co_name}+{-line - 1}"
             self.ctx.state(phase, loc)
             if img != last[0]:
@@ -220,7 +237,7 @@ class C11Disk(Scenario):
             self.ls.run(fn, hook=hook, kill_at=kill_at)
         except SimKill:
             killed = True
-            kill_img = common.read_fresh(path)
+            kill_img = self.read_backing()
         n_events = self.ls.n
         self.ctx.count("crash_points", n_events)
         self.ctx.fault("kill@line", n_events)
@@ -239,7 +256,7 @@ class C11Disk(Scenario):
 
     def check_after_return(self, phase, sig):
         self.refresh_cache()
-        img = common.read_fresh(self.path)
+        img = self.read_backing()
         sig = sig or {"phase": phase, "op": phase}
         self.judge_image(img, None, f"after {phase} returned", sig)
         return img
@@ -259,7 +276,7 @@ class C11Disk(Scenario):
     def real_kill_image(self, fn, at):
         """Fork; the child really SIGKILLs itself just before its at-th library line event.
         Returns the file the dead child left behind; restores the file for the parent."""
-        img0 = common.read_fresh(self.path)
+        img0 = self.read_backing()
         pid = os.fork()
         if pid == 0:
             try:
@@ -271,13 +288,13 @@ class C11Disk(Scenario):
             finally:
                 os._exit(0)
         os.waitpid(pid, 0)
-        left = common.read_fresh(self.path)
+        left = self.read_backing()
         fd = os.open(self.path, os.O_WRONLY)
         try:
             os.pwrite(fd, img0, 0)
         finally:
             os.close(fd)
-        if common.read_fresh(self.path) != img0:
+        if self.read_backing() != img0:
             raise HarnessError("could not restore the backing file after the real-kill cross-check")
         return left
 
@@ -304,7 +321,7 @@ class C11Disk(Scenario):
                 self.count += 1
                 self.twin.add(key)
                 self.check_after_return("add", None)
-                if real_img is not None and real_img != common.read_fresh(self.path):
+                if real_img is not None and real_img != self.read_backing():
                     raise HarnessError("real-kill child (not killed) left a different file than the in-process run")
                 return {"r": "ok", "lines": n, "count": self.count}
             # ---- simulated process death at line `at`, then restart from the crash image
@@ -355,6 +372,8 @@ class C11Disk(Scenario):
             self.scr.chdir(step["dir"])
             ctx.fault("cwd_change")
             return {"r": "ok"}
+        if op == "decoy":
+            return self.do_decoy(step)
         if op == "reopen":
             if self.f is not None:
                 return "skip"
@@ -364,6 +383,35 @@ class C11Disk(Scenario):
                 return "skip"
             return self.do_export(step)
         raise HarnessError(op)
+
+    def do_decoy(self, step):
+        from probables import BloomFilter
+
+        d = step["dir"]
+        if d == self.cfg["dir"]:
+            return "skip"
+        before = self.read_backing()
+        cwd0 = self.scr.cwd
+        self.scr.chdir(d)
+        sig = {"phase": "decoy", "op": "decoy"}
+        try:
+            g = self.cls(FNAME, self.cfg["est"], self.cfg["rate"], hash_function=self.hf)  # relative to ITS directory
+            twin2 = BloomFilter(self.cfg["est"], self.cfg["rate"], hash_function=self.hf)
+            for k in step["ks"]:
+                g.add(seams.key_of(k))
+                twin2.add(seams.key_of(k))
+            g.close()
+        finally:
+            self.scr.chdir(cwd0)
+        self.ctx.fault("second_filter_same_name")
+        other = self.scr.abspath(d, FNAME)
+        if not os.path.exists(other) or common.read_fresh(other) != bytes(twin2):
+            raise Violation("decoy_file_wrong", f"a second filter created as {FNAME!r} from directory {d!r} did not end up as "
+                                                f"its own valid file there", sig)
+        if self.read_backing() != before:
+            raise Violation("backing_file_clobbered", f"creating / filling another filter named {FNAME!r} in directory {d!r} "
+                                                      f"changed this filter's backing file in {self.cfg['dir']!r}", sig)
+        return {"r": "ok"}
 
     def restart_from_image(self, img, inflight):
         """The process is dead: drop the handle without letting it touch the file, restore the crash image,
